@@ -624,7 +624,13 @@ func (fr *Frame) anchor(name string, c *blockCtx, results []Term) {
 		if fr.firedAnchors == nil {
 			fr.firedAnchors = map[int]bool{}
 		}
-		fr.firedAnchors[i] = true
+		if g.dry == 0 {
+			fr.firedAnchors[i] = true
+		} else if len(a.Havoc) == 0 && a.SetName == "" {
+			// inside the dry run that determines a loop's write set call ordinals differ from the real pass,
+			// and an assertion or assumption has no effect on the write set
+			continue
+		}
 		env := fr.baseEnv(c.st)
 		at := fr.curBlock
 		env.resolve = func(n string, st2 *State) (Term, Ty, bool) {
@@ -650,6 +656,31 @@ func (fr *Frame) anchor(name string, c *blockCtx, results []Term) {
 						}
 					}
 				}
+			}
+			if strings.HasPrefix(n, "$h_") {
+				// value of a source variable at the head of the innermost enclosing loop that carries it
+				// (its value when the current iteration started)
+				var best *loopInfo
+				var bestPhi *ssa.Phi
+				for _, li := range fr.loopList {
+					if !li.body[at] || (best != nil && len(li.body) >= len(best.body)) {
+						continue
+					}
+					for _, phi := range phisOf(li.header) {
+						if phi.Comment == n[3:] {
+							best, bestPhi = li, phi
+						}
+					}
+				}
+				if bestPhi != nil {
+					if t, ok := fr.vals[bestPhi]; ok {
+						return t, goTy(bestPhi.Type()), true
+					}
+					if g.dry > 0 {
+						return g.sc.Fresh("dryhead", g.sortOf(bestPhi.Type())), goTy(bestPhi.Type()), true
+					}
+				}
+				return Term{}, Ty{}, false
 			}
 			return fr.resolveLocalAt(n, at, st2)
 		}
